@@ -126,15 +126,19 @@ Qed.
 Lemma inv_exists b now : inv b now -> inv (Bus true (b_rows b) (b_seq b)) now.
 Proof. intros [Hc Hl Hs Hn]. split; assumption. Qed.
 
-(** every reachable state satisfies the invariant *)
-Theorem inv_reachable ops : forall st,
+(** every state reachable while the producer's clock never steps back satisfies the invariant
+    (the ordered-log facts below need timestamps in insertion order; [purge_only_old] does not) *)
+Definition monotone_clock (op : bop) : Prop := match op with BBack _ => False | _ => True end.
+Theorem inv_reachable ops : forall st, Forall monotone_clock ops ->
   inv (s_bus st) (s_now st) -> inv (s_bus (bfinal st ops)) (s_now (bfinal st ops)).
 Proof.
-  induction ops as [|op r IH]; intros st Hi; [exact Hi|]. simpl. apply IH.
-  destruct op as [ret|p|d|o| |]; simpl.
+  induction ops as [|op r IH]; intros st Hm Hi; [exact Hi|]. simpl.
+  inversion Hm as [|? ? Hop Hr]; subst. apply IH; [exact Hr|].
+  destruct op as [ret|p|d|d|o| |]; simpl.
   - apply inv_purge. apply inv_exists. exact Hi.
   - apply inv_send. exact Hi.
   - apply inv_age. exact Hi.
+  - destruct Hop.
   - exact Hi.
   - exact Hi.
   - destruct (negb (b_exists (s_bus st))); [exact Hi|].
